@@ -140,7 +140,20 @@ class UserSDE:
                     args = [args[0]] + args[1 + self.d:]
                 elif only is not None:
                     args = [args[0], args[1 + only]] + args[1 + self.d:]
-                rows.append(app(name, args))
+                if getattr(self, 'stage_apps', False):
+                    from .sym import cut as _cut
+                    # the state argument of every evaluation is a stage of its own too (`<prog>_Y<k>`)
+                    for k_ in range(1, len(args)):
+                        if isinstance(args[k_], Node) and args[k_].op not in ('var', 'const', 'cut'):
+                            self._nstage = getattr(self, '_nstage', 0) + 1
+                            args[k_] = _cut(args[k_], f"Y{self._nstage}")
+                v = app(name, args)
+                if getattr(self, 'stage_apps', False):
+                    # C02 (SRK): every function evaluation becomes its own Lean definition `<prog>_E<k>`
+                    from .sym import cut
+                    self._nstage = getattr(self, '_nstage', 0) + 1
+                    v = cut(v, f"E{self._nstage}")
+                rows.append(v)
             arr = np.empty(len(rows), dtype=object)
             arr[:] = rows
             return ST(arr)
@@ -234,7 +247,7 @@ def sde_symbols(noise_type, d, m, nth=0):
     return u.symbols()
 
 
-def make_step(method, sde_type, noise_type, d=1, m=1, options=None, batch=1, seed=7):
+def make_step(method, sde_type, noise_type, d=1, m=1, options=None, batch=1, seed=7, stage_apps=False):
     """returns (fn(B), sample(rng), funcs) for one solver step"""
     m_eff = d if noise_type == 'diagonal' else m
     syms = sde_symbols(noise_type, d, m_eff)
@@ -245,6 +258,7 @@ def make_step(method, sde_type, noise_type, d=1, m=1, options=None, batch=1, see
         t0, t1 = B.ts('t0'), B.ts('t1')
         y0 = B.x('y0', (batch, d))
         user = UserSDE(B, noise_type, sde_type, d, m_eff, base_polys=base)
+        user.stage_apps = stage_apps and B.sym
         sde = ForwardSDE(user)
         W = B.x('dW', (batch, m_eff))
         U = B.x('U', (batch, m_eff)) if levy != 'none' else None
